@@ -188,6 +188,7 @@ package openapiv3
 //@   at-call assignOperationToPathItem requires query_parameters_published: count("buildQueryParameters") == old(count("buildQueryParameters")) + 1 && len(arg2.Parameters) >= len(lastRetAs("buildQueryParameters", []*v3.Parameter)) && (forall k int :: 0 <= k && k < len(lastRetAs("buildQueryParameters", []*v3.Parameter)) ==> arg2.Parameters[len(arg2.Parameters) - len(lastRetAs("buildQueryParameters", []*v3.Parameter)) + k] == lastRetAs("buildQueryParameters", []*v3.Parameter)[k])
 //@   at-call assignOperationToPathItem requires opid: arg2 != nil && arg2.OperationId == string(method.Desc.Name())
 //@   at-call assignOperationToPathItem requires verb: arg1 == info.httpMethod
+//@   at-call CreateSchemaProxyRef requires body_refers_to_the_request_type: arg0 == "#/components/schemas/" + g.getSchemaName(method.Input)
 //@   at-call Set requires key: arg0 == "application/json" || arg0 == info.path
 //@   ensures registered: count("assignOperationToPathItem") == old(count("assignOperationToPathItem")) + 1 && count("buildPathParameters") == old(count("buildPathParameters")) + 1
 
@@ -236,6 +237,8 @@ package openapiv3
 // items, map values, oneof variants reach this function by different routes - C19)
 //@   at-call CreateSchemaProxy requires rules_translated: spec.scalarKindField(field) && spec.validKind(field.Desc.Kind()) ==> count("extractValidationConstraints") == old(count("extractValidationConstraints")) + 1 && lastArgRef("extractValidationConstraints", "1") == arg0
 //@   at-call extractValidationConstraints requires own_field: arg0 == field
+// a $ref points at the component of the field's own message type - the key processMessage registers it under (C18: references resolve)
+//@   at-call CreateSchemaProxyRef requires refers_to_the_field_type: arg0 == "#/components/schemas/" + g.getSchemaName(field.Message)
 //@   at-call convertEnumField requires enums_only: field.Desc.Kind() == protoreflect.EnumKind
 //@   at-call convertTimestampField requires timestamps_only: spec.isTimestamp(field)
 
@@ -267,6 +270,7 @@ package openapiv3
 //@ func (g *Generator) buildRootMapUnwrapSchema(rootUnwrap *rootUnwrapInfo) (r *base.Schema)
 //@   requires rootUnwrap != nil
 //@   modifies *
+//@   at-call CreateSchemaProxyRef requires refers_to_the_value_type: rootUnwrap.valueMessage != nil && arg0 == "#/components/schemas/" + g.getSchemaName(rootUnwrap.valueMessage)
 //@   ensures object_of_values: r != nil && len(r.Type) == 1 && r.Type[0] == "object" && r.AdditionalProperties != nil && r.Properties == nil && r.Items == nil
 //@   ensures no_applicator: spec.noApplicators(r)
 //@   ensures unconstrained: spec.noValueConstraints(r)
@@ -306,6 +310,16 @@ package openapiv3
 //@   opaque openapiv3.checkIfFieldRequired
 //@   at-call CreateSchemaProxy requires required_complete: forall k int :: 0 <= k && k < len(message.Fields) && !(inDom(oneofFields, string(message.Fields[k].Desc.Name())) && oneofFields[string(message.Fields[k].Desc.Name())]) && checkIfFieldRequired(message.Fields[k]) ==> (exists j int :: 0 <= j && j < len(arg0.Required) && arg0.Required[j] == message.Fields[k].Desc.JSONName())
 //@   loop 1 invariant forall k int :: 0 <= k && k < _i1 && !(inDom(oneofFields, string(message.Fields[k].Desc.Name())) && oneofFields[string(message.Fields[k].Desc.Name())]) && checkIfFieldRequired(message.Fields[k]) ==> (exists j int :: 0 <= j && j < len(required) && required[j] == message.Fields[k].Desc.JSONName())
+
+// nested discriminated oneofs: the $ref of a message variant and its discriminator mapping entry both name the component of
+// the variant's message type, i.e. the key processMessage registers it under (C18: references and mappings resolve)
+//@ func (g *Generator) buildNestedOneofVariants(discriminatedOneofs []*annotations.OneofDiscriminatorInfo, properties *orderedmap.Map[string, *base.SchemaProxy]) (r []*base.SchemaProxy, d *annotations.OneofDiscriminatorInfo)
+//@   modifies *
+//@   at-call CreateSchemaProxyRef requires refers_to_the_variant_type: arg0 == "#/components/schemas/" + g.getSchemaName(variant.Field.Message)
+
+//@ func (g *Generator) buildNestedDiscriminator(info *annotations.OneofDiscriminatorInfo) (r *base.Discriminator)
+//@   modifies *
+//@   at-call Set requires maps_to_the_variant_type: arg1 == "#/components/schemas/" + g.getSchemaName(variant.Field.Message)
 
 //@ func (g *Generator) buildFlattenedObjectSchema(message *protogen.Message) (r *base.SchemaProxy)
 //@   modifies *
